@@ -7,6 +7,12 @@
 //!   h <D> ; op ; op ; ...   a history over four `Tensor<i64, D>` variables (slots 0..3), one observation per op:
 //!       mk s <dims> <start> (from_vec(dims, start..)) | cl s r (s = r.clone()) | cf s r (s.clone_from(&r)) | eq s r |
 //!       dims s | dim s i | get s <idx> | rd s <idx> | wr s <idx> v (then all cells) | it s | w s (Writable bytes)
+//!   g <D> <ty> ; op ; ...   the same over `Tensor<T, D>` for T = i64 | String (`str`) | f64 | () (`unit`) | a zero-sized struct (`zst`) |
+//!       a zero-sized struct whose == is never true (`nz`) |
+//!       a record compared by key (`rec`, tokens `key:tag`):  vec|sl s <dims> <data> | new s <dims> v | rdv s <dims> <data> (Tensor::read) |
+//!       like s r v (new(*r.dims(), v)) | coll s r (from_vec(*r.dims(), r.clone().into_iter().collect())) | cl | cf | eq s r | ne s r
+//!       (s = r: the same object on both sides) | dims | dim | get | rd | wr s <idx> v | it | w | dbg ({:?}) |
+//!       itx s k j q [n]  (iter / iter_mut / into_iter after k x next and j x next_back: count | len | last | nth n | nthb n | rev | rest)
 #[path = "../../common/mod.rs"]
 mod common;
 use common::*;
@@ -648,10 +654,594 @@ fn run_hist<const D: usize>(ops: &[&str]) -> String {
     out2(&raw.join(";"), &view.join(";"))
 }
 
+// ------------------------------------------------------------------------------------------
+// element-generic histories (`g <D> <ty> ; …`)
+// ------------------------------------------------------------------------------------------
+
+/// An element type of the generic histories.  `show` prints the case-line token of a value.
+trait Elem: Clone + PartialEq + std::fmt::Debug + 'static {
+    fn parse(tok: &str) -> Option<Self>;
+    fn show(&self) -> String;
+    /// `Writable` bytes of a tensor (None: the type has no `Writable`)
+    fn write_t<const D: usize>(_t: &Tensor<Self, D>) -> Option<Vec<u8>> {
+        None
+    }
+    /// `Tensor::read` (None: the type has no `Readable`)
+    fn read_t<const D: usize>(_dims: [usize; D], _rd: &mut Reader) -> Option<Tensor<Self, D>> {
+        None
+    }
+}
+
+impl Elem for i64 {
+    fn parse(tok: &str) -> Option<Self> {
+        tok.parse().ok()
+    }
+    fn show(&self) -> String {
+        self.to_string()
+    }
+    fn write_t<const D: usize>(t: &Tensor<Self, D>) -> Option<Vec<u8>> {
+        Some(write_bytes(t))
+    }
+    fn read_t<const D: usize>(dims: [usize; D], rd: &mut Reader) -> Option<Tensor<Self, D>> {
+        Some(Tensor::read(dims, rd))
+    }
+}
+
+impl Elem for String {
+    fn parse(tok: &str) -> Option<Self> {
+        if !tok.is_empty() && tok.bytes().all(|b| b.is_ascii_alphanumeric() || b == b'.' || b == b'+' || b == b'-') {
+            Some(tok.to_string())
+        } else {
+            None
+        }
+    }
+    fn show(&self) -> String {
+        self.clone()
+    }
+    fn write_t<const D: usize>(t: &Tensor<Self, D>) -> Option<Vec<u8>> {
+        Some(write_bytes(t))
+    }
+    fn read_t<const D: usize>(dims: [usize; D], rd: &mut Reader) -> Option<Tensor<Self, D>> {
+        Some(Tensor::read(dims, rd))
+    }
+}
+
+/// `f64` literals of the case lines (compared by bits when printed: `0.0` and `-0.0` are different tokens)
+const F64_TABLE: [(&str, f64); 11] = [
+    ("nan", f64::NAN),
+    ("0.0", 0.0),
+    ("-0.0", -0.0),
+    ("1.0", 1.0),
+    ("-1.0", -1.0),
+    ("1.5", 1.5),
+    ("-2.25", -2.25),
+    ("0.1", 0.1),
+    ("inf", f64::INFINITY),
+    ("-inf", f64::NEG_INFINITY),
+    ("1e300", 1e300),
+];
+
+impl Elem for f64 {
+    fn parse(tok: &str) -> Option<Self> {
+        F64_TABLE.iter().find(|e| e.0 == tok).map(|e| e.1)
+    }
+    fn show(&self) -> String {
+        if self.is_nan() {
+            return "nan".to_string();
+        }
+        match F64_TABLE.iter().find(|e| e.1.to_bits() == self.to_bits()) {
+            Some(e) => e.0.to_string(),
+            None => format!("bits:{:#x}", self.to_bits()),
+        }
+    }
+}
+
+impl Elem for () {
+    fn parse(tok: &str) -> Option<Self> {
+        if tok == "u" { Some(()) } else { None }
+    }
+    fn show(&self) -> String {
+        "u".to_string()
+    }
+}
+
+/// a zero-sized element type with IO
+#[derive(Clone, PartialEq, Debug)]
+struct Z;
+
+impl Writable for Z {
+    fn write(&self, writer: &mut Writer) {
+        writer.write_char('z');
+    }
+}
+
+impl Readable for Z {
+    fn read(reader: &mut Reader) -> Self {
+        let _tok: String = reader.read();
+        Z
+    }
+}
+
+impl Elem for Z {
+    fn parse(tok: &str) -> Option<Self> {
+        if tok == "z" { Some(Z) } else { None }
+    }
+    fn show(&self) -> String {
+        "z".to_string()
+    }
+    fn write_t<const D: usize>(t: &Tensor<Self, D>) -> Option<Vec<u8>> {
+        Some(write_bytes(t))
+    }
+    fn read_t<const D: usize>(dims: [usize; D], rd: &mut Reader) -> Option<Tensor<Self, D>> {
+        Some(Tensor::read(dims, rd))
+    }
+}
+
+/// a zero-sized element type whose `==` is never true (non-reflexive, like NaN, but without any data)
+#[derive(Clone, Debug)]
+struct Nz;
+
+impl PartialEq for Nz {
+    fn eq(&self, _other: &Self) -> bool {
+        false
+    }
+}
+
+impl Elem for Nz {
+    fn parse(tok: &str) -> Option<Self> {
+        if tok == "n" { Some(Nz) } else { None }
+    }
+    fn show(&self) -> String {
+        "n".to_string()
+    }
+}
+
+/// a record compared by its key only: equal-comparing values are distinguishable by `tag`
+#[derive(Clone)]
+struct Rec {
+    key: i64,
+    tag: i64,
+}
+
+impl PartialEq for Rec {
+    fn eq(&self, other: &Self) -> bool {
+        self.key == other.key
+    }
+}
+
+impl std::fmt::Debug for Rec {
+    fn fmt(&self, f: &mut std::fmt::Formatter<'_>) -> std::fmt::Result {
+        write!(f, "{}:{}", self.key, self.tag)
+    }
+}
+
+impl Writable for Rec {
+    fn write(&self, writer: &mut Writer) {
+        writer.write(&self.key);
+        writer.write_char(':');
+        writer.write(&self.tag);
+    }
+}
+
+impl Readable for Rec {
+    fn read(reader: &mut Reader) -> Self {
+        let tok: String = reader.read();
+        <Rec as Elem>::parse(&tok).unwrap_or(Rec { key: 0, tag: 0 })
+    }
+}
+
+impl Elem for Rec {
+    fn parse(tok: &str) -> Option<Self> {
+        let (k, t) = tok.split_once(':')?;
+        Some(Rec { key: k.parse().ok()?, tag: t.parse().ok()? })
+    }
+    fn show(&self) -> String {
+        format!("{}:{}", self.key, self.tag)
+    }
+    fn write_t<const D: usize>(t: &Tensor<Self, D>) -> Option<Vec<u8>> {
+        Some(write_bytes(t))
+    }
+    fn read_t<const D: usize>(dims: [usize; D], rd: &mut Reader) -> Option<Tensor<Self, D>> {
+        Some(Tensor::read(dims, rd))
+    }
+}
+
+fn parse_elems<E: Elem>(s: &str) -> Option<Vec<E>> {
+    parse_list(s).iter().map(|t| E::parse(t)).collect()
+}
+
+fn show_opt(o: Option<String>) -> String {
+    match o {
+        Some(s) => format!("some({})", s),
+        None => "none".to_string(),
+    }
+}
+
+/// One question to an iterator after `k` x `next` and `j` x `next_back`.  Generic over the iterator type: whatever
+/// `iter()` / `iter_mut()` / `into_iter()` return must be double-ended and exact-sized (they are std slice / vec iterators).
+fn iter_probe<I, F>(mut it: I, k: usize, j: usize, q: &str, n: usize, show: F) -> String
+where
+    I: DoubleEndedIterator + ExactSizeIterator,
+    F: Fn(&I::Item) -> String,
+{
+    for _ in 0..k {
+        if it.next().is_none() {
+            break;
+        }
+    }
+    for _ in 0..j {
+        if it.next_back().is_none() {
+            break;
+        }
+    }
+    match q {
+        "count" => it.count().to_string(),
+        "len" => {
+            let l = it.len();
+            let h = it.size_hint();
+            if h != (l, Some(l)) { format!("len={}/hint={:?}", l, h).replace(' ', "") } else { l.to_string() }
+        }
+        "last" => show_opt(it.last().map(|x| show(&x))),
+        "nth" => show_opt(it.nth(n).map(|x| show(&x))),
+        "nthb" => show_opt(it.nth_back(n).map(|x| show(&x))),
+        "rev" => show_list(it.rev().map(|x| show(&x))),
+        "rest" => show_list(it.map(|x| show(&x))),
+        "fold" => {
+            let v = it.fold(Vec::new(), |mut acc, x| {
+                acc.push(show(&x));
+                acc
+            });
+            show_list(v.into_iter())
+        }
+        "foreach" => {
+            let mut v = Vec::new();
+            it.for_each(|x| v.push(show(&x)));
+            show_list(v.into_iter())
+        }
+        "rfold" => {
+            // back to front, as `rev()` yields
+            let v = it.rfold(Vec::new(), |mut acc, x| {
+                acc.push(show(&x));
+                acc
+            });
+            show_list(v.into_iter())
+        }
+        _ => "bad-query".to_string(),
+    }
+}
+
+fn run_ghist<E: Elem, const D: usize>(ops: &[&str]) -> String {
+    let mut slots: [Option<Tensor<E, D>>; 4] = [None, None, None, None];
+    let mut raw: Vec<String> = Vec::new();
+    if ops.is_empty() {
+        return INVALID.to_string();
+    }
+    let slot = |t: &str| -> Option<usize> { t.parse::<usize>().ok().filter(|&k| k < 4) };
+    // a shape token: a list of length D whose product (if no extent is 0) stays small
+    let shape = |t: &str| -> Option<([usize; D], Vec<usize>)> {
+        let v = parse_usizes(t)?;
+        let a = arr::<D>(&v)?;
+        let n = v.iter().fold(1u128, |a, &d| a.saturating_mul(d as u128));
+        if !v.contains(&0) && n > 100000 {
+            return None;
+        }
+        Some((a, v))
+    };
+    let store = |slots: &mut [Option<Tensor<E, D>>; 4], s: usize, r: Result<Tensor<E, D>, String>| -> String {
+        match r {
+            Ok(t) => {
+                slots[s] = Some(t);
+                "ok".to_string()
+            }
+            Err(e) => pc(Err(e)),
+        }
+    };
+    for op in ops {
+        let toks: Vec<&str> = op.split_whitespace().collect();
+        if toks.is_empty() {
+            return INVALID.to_string();
+        }
+        let o: String = match (toks[0], toks.len()) {
+            ("vec", 4) | ("sl", 4) | ("rdv", 4) => {
+                let (s, (dims, dims_v), data) = match (slot(toks[1]), shape(toks[2]), parse_elems::<E>(toks[3])) {
+                    (Some(a), Some(b), Some(c)) => (a, b, c),
+                    _ => return INVALID.to_string(),
+                };
+                if data.len() > 100000 {
+                    return INVALID.to_string();
+                }
+                match toks[0] {
+                    "vec" => {
+                        let r = catch(|| Tensor::<E, D>::from_vec(dims, data));
+                        store(&mut slots, s, r)
+                    }
+                    "sl" => {
+                        let r = catch(|| Tensor::<E, D>::from_slice(dims, &data));
+                        store(&mut slots, s, r)
+                    }
+                    _ => {
+                        let n: usize = dims_v.iter().product();
+                        if !dims_v.contains(&0) && data.len() < n {
+                            return INVALID.to_string();
+                        }
+                        // the elements as text, separated alternately by a blank and a newline, delivered 3 bytes at a time
+                        let mut text = String::new();
+                        for (k, x) in data.iter().enumerate() {
+                            if k > 0 {
+                                text.push(if k % 2 == 0 { '\n' } else { ' ' });
+                            }
+                            text.push_str(&x.show());
+                        }
+                        let r = catch(|| {
+                            let mut rd = Reader::new(Box::new(Chunked { data: text.into_bytes(), pos: 0, chunk: 3 }));
+                            E::read_t::<D>(dims, &mut rd)
+                        });
+                        match r {
+                            Ok(None) => return INVALID.to_string(),
+                            Ok(Some(t)) => store(&mut slots, s, Ok(t)),
+                            Err(e) => store(&mut slots, s, Err(e)),
+                        }
+                    }
+                }
+            }
+            ("new", 4) => {
+                let (s, (dims, _), v) = match (slot(toks[1]), shape(toks[2]), E::parse(toks[3])) {
+                    (Some(a), Some(b), Some(c)) => (a, b, c),
+                    _ => return INVALID.to_string(),
+                };
+                let r = catch(|| Tensor::<E, D>::new(dims, v));
+                store(&mut slots, s, r)
+            }
+            ("like", 4) => {
+                let (s, r, v) = match (slot(toks[1]), slot(toks[2]), E::parse(toks[3])) {
+                    (Some(a), Some(b), Some(c)) => (a, b, c),
+                    _ => return INVALID.to_string(),
+                };
+                let src = match &slots[r] {
+                    Some(t) => t,
+                    None => return INVALID.to_string(),
+                };
+                let res = catch(|| Tensor::<E, D>::new(*src.dims(), v));
+                store(&mut slots, s, res)
+            }
+            ("coll", 3) => {
+                let (s, r) = match (slot(toks[1]), slot(toks[2])) {
+                    (Some(a), Some(b)) => (a, b),
+                    _ => return INVALID.to_string(),
+                };
+                let src = match &slots[r] {
+                    Some(t) => t,
+                    None => return INVALID.to_string(),
+                };
+                let res = catch(|| {
+                    let d = *src.dims();
+                    let v: Vec<E> = src.clone().into_iter().collect();
+                    Tensor::<E, D>::from_vec(d, v)
+                });
+                store(&mut slots, s, res)
+            }
+            ("cl", 3) => {
+                let (s, r) = match (slot(toks[1]), slot(toks[2])) {
+                    (Some(a), Some(b)) => (a, b),
+                    _ => return INVALID.to_string(),
+                };
+                let src = match &slots[r] {
+                    Some(t) => t,
+                    None => return INVALID.to_string(),
+                };
+                let res = catch(|| src.clone());
+                store(&mut slots, s, res)
+            }
+            ("cf", 3) => {
+                let (s, r) = match (slot(toks[1]), slot(toks[2])) {
+                    (Some(a), Some(b)) if a != b => (a, b),
+                    _ => return INVALID.to_string(),
+                };
+                if slots[s].is_none() || slots[r].is_none() {
+                    return INVALID.to_string();
+                }
+                let src = slots[r].take().unwrap();
+                let res = {
+                    let dst = slots[s].as_mut().unwrap();
+                    catch(|| dst.clone_from(&src))
+                };
+                slots[r] = Some(src);
+                match res {
+                    Ok(()) => "ok".to_string(),
+                    Err(e) => pc(Err(e)),
+                }
+            }
+            ("eq", 3) | ("ne", 3) => {
+                let (s, r) = match (slot(toks[1]), slot(toks[2])) {
+                    (Some(a), Some(b)) => (a, b),
+                    _ => return INVALID.to_string(),
+                };
+                // `s = r`: both operands are references to the same object
+                let (t, u) = match (&slots[s], &slots[r]) {
+                    (Some(t), Some(u)) => (t, u),
+                    _ => return INVALID.to_string(),
+                };
+                if toks[0] == "ne" {
+                    pc(catch(|| (t != u).to_string()))
+                } else {
+                    pc(catch(|| {
+                        let e = t == u;
+                        let (n, rev) = (t != u, u == t);
+                        if n == e || rev != e {
+                            format!("EQ-INCONSISTENT(eq={},ne={},rev={})", e, n, rev)
+                        } else {
+                            e.to_string()
+                        }
+                    }))
+                }
+            }
+            ("dims", 2) => {
+                let t = match slot(toks[1]).and_then(|s| slots[s].as_ref()) {
+                    Some(t) => t,
+                    None => return INVALID.to_string(),
+                };
+                pc(catch(|| show_list(t.dims().iter())))
+            }
+            ("dim", 3) => {
+                let i: usize = match toks[2].parse() {
+                    Ok(i) => i,
+                    Err(_) => return INVALID.to_string(),
+                };
+                let t = match slot(toks[1]).and_then(|s| slots[s].as_ref()) {
+                    Some(t) => t,
+                    None => return INVALID.to_string(),
+                };
+                pc(catch(|| t.dim(i).to_string()))
+            }
+            ("get", 3) | ("rd", 3) => {
+                let idx = match parse_usizes(toks[2]).and_then(|v| arr::<D>(&v)) {
+                    Some(i) => i,
+                    None => return INVALID.to_string(),
+                };
+                let t = match slot(toks[1]).and_then(|s| slots[s].as_ref()) {
+                    Some(t) => t,
+                    None => return INVALID.to_string(),
+                };
+                if toks[0] == "get" {
+                    pc(catch(|| t.get_index(idx).to_string()))
+                } else {
+                    pc(catch(|| t[idx].show()))
+                }
+            }
+            ("wr", 4) => {
+                let idx = match parse_usizes(toks[2]).and_then(|v| arr::<D>(&v)) {
+                    Some(i) => i,
+                    None => return INVALID.to_string(),
+                };
+                let v: E = match E::parse(toks[3]) {
+                    Some(v) => v,
+                    None => return INVALID.to_string(),
+                };
+                let t = match slot(toks[1]).and_then(|s| slots[s].as_mut()) {
+                    Some(t) => t,
+                    None => return INVALID.to_string(),
+                };
+                let before = show_list(t.iter().map(|x| x.show()));
+                match catch(|| {
+                    t[idx] = v;
+                }) {
+                    Ok(()) => show_list(t.iter().map(|x| x.show())),
+                    Err(e) => {
+                        let e = pc(Err(e));
+                        let after = show_list(t.iter().map(|x| x.show()));
+                        if after != before { format!("{}+changed{}", e, after) } else { e }
+                    }
+                }
+            }
+            ("it", 2) => {
+                let t = match slot(toks[1]).and_then(|s| slots[s].as_mut()) {
+                    Some(t) => t,
+                    None => return INVALID.to_string(),
+                };
+                pc(catch(|| {
+                    let a = show_list(t.iter().map(|x| x.show()));
+                    let b = show_list(t.iter_mut().map(|x| x.show()));
+                    let c = show_list(t.clone().into_iter().map(|x| x.show()));
+                    if a != b || a != c { "ITER-VARIANTS-DIFFER".to_string() } else { a }
+                }))
+            }
+            ("itx", 5) | ("itx", 6) => {
+                // `next_back` steps are capped (the list model's `next_back` is linear in the window)
+                let (k, j) = match (toks[2].parse::<usize>(), toks[3].parse::<usize>()) {
+                    (Ok(k), Ok(j)) if k <= 200000 && j <= 300 => (k, j),
+                    _ => return INVALID.to_string(),
+                };
+                let q = toks[4];
+                let n: usize = match (q, toks.len()) {
+                    ("nth", 6) | ("nthb", 6) => match toks[5].parse::<usize>() {
+                        Ok(n) if n <= 200000 && (q == "nth" || n <= 300) => n,
+                        _ => return INVALID.to_string(),
+                    },
+                    ("count", 5) | ("len", 5) | ("last", 5) | ("rev", 5) | ("rest", 5) => 0,
+                    _ => return INVALID.to_string(),
+                };
+                let t = match slot(toks[1]).and_then(|s| slots[s].as_mut()) {
+                    Some(t) => t,
+                    None => return INVALID.to_string(),
+                };
+                // the provided methods that must agree with collecting
+                let variants: Vec<&str> = match q {
+                    "rest" => vec!["rest", "fold", "foreach"],
+                    "rev" => vec!["rev", "rfold"],
+                    _ => vec![q],
+                };
+                pc(catch(|| {
+                    let mut outs: Vec<String> = Vec::new();
+                    for v in &variants {
+                        outs.push(iter_probe(t.iter(), k, j, v, n, |x| x.show()));
+                        outs.push(iter_probe(t.iter_mut(), k, j, v, n, |x| x.show()));
+                        outs.push(iter_probe(t.clone().into_iter(), k, j, v, n, |x| x.show()));
+                    }
+                    if outs.iter().all(|o| *o == outs[0]) {
+                        outs[0].clone()
+                    } else {
+                        format!("ITER-VARIANTS-DIFFER({})", outs.join("/"))
+                    }
+                }))
+            }
+            ("w", 2) => {
+                let t = match slot(toks[1]).and_then(|s| slots[s].as_ref()) {
+                    Some(t) => t,
+                    None => return INVALID.to_string(),
+                };
+                match catch(|| E::write_t::<D>(t).map(|b| escape(&b))) {
+                    Ok(None) => return INVALID.to_string(),
+                    Ok(Some(s)) => s,
+                    Err(e) => pc(Err(e)),
+                }
+            }
+            ("dbg", 2) => {
+                let t = match slot(toks[1]).and_then(|s| slots[s].as_ref()) {
+                    Some(t) => t,
+                    None => return INVALID.to_string(),
+                };
+                pc(catch(|| escape(format!("{:?}", t).as_bytes())))
+            }
+            _ => return INVALID.to_string(),
+        };
+        raw.push(o);
+    }
+    let view: Vec<String> = raw.iter().map(|o| pv(o)).collect();
+    out2(&raw.join(";"), &view.join(";"))
+}
+
+fn run_ghist_d<const D: usize>(ty: &str, ops: &[&str]) -> String {
+    match ty {
+        "i64" => run_ghist::<i64, D>(ops),
+        "str" => run_ghist::<String, D>(ops),
+        "f64" => run_ghist::<f64, D>(ops),
+        "unit" => run_ghist::<(), D>(ops),
+        "zst" => run_ghist::<Z, D>(ops),
+        "nz" => run_ghist::<Nz, D>(ops),
+        "rec" => run_ghist::<Rec, D>(ops),
+        _ => INVALID.to_string(),
+    }
+}
+
 fn run_case(line: &str) -> String {
     let toks: Vec<&str> = line.split_whitespace().collect();
     if toks.len() < 2 {
         return INVALID.to_string();
+    }
+    if toks[0] == "g" {
+        let parts: Vec<&str> = line.split(';').map(|p| p.trim()).collect();
+        let hdr: Vec<&str> = parts[0].split_whitespace().collect();
+        if hdr.len() != 3 {
+            return INVALID.to_string();
+        }
+        return match hdr[1] {
+            "0" => run_ghist_d::<0>(hdr[2], &parts[1..]),
+            "1" => run_ghist_d::<1>(hdr[2], &parts[1..]),
+            "2" => run_ghist_d::<2>(hdr[2], &parts[1..]),
+            "3" => run_ghist_d::<3>(hdr[2], &parts[1..]),
+            "4" => run_ghist_d::<4>(hdr[2], &parts[1..]),
+            _ => INVALID.to_string(),
+        };
     }
     if toks[0] == "h" {
         let parts: Vec<&str> = line.split(';').map(|p| p.trim()).collect();
@@ -758,6 +1348,8 @@ fn rand_str_elem(rng: &mut SplitMix64) -> String {
 
 fn gen(args: &Args, emit: &mut dyn FnMut(String), st: &mut Stats) {
     let thorough = args.tier == "thorough";
+    // `--profile debug`: the unoptimised build with debug assertions runs the histories in full and a sample of the bulk streams
+    let debug = args.extra.get("profile").map(|p| p == "debug").unwrap_or(false);
     let mut rng = SplitMix64::new(args.seed ^ 0xC19);
 
     // (1) index probes: every shape, every valid index, every index out of range in exactly one dimension.
@@ -769,6 +1361,9 @@ fn gen(args: &Args, emit: &mut dyn FnMut(String), st: &mut Stats) {
         let hi = if rank == 4 && !thorough { 4 } else { 5 };
         for dims in shapes(rank, 1, hi) {
             let n: usize = dims.iter().product();
+            if debug && rank >= 3 && !rng.chance(1, if thorough { 2 } else { 6 }) {
+                continue;
+            }
             let ds = join(&dims);
             for idx in all_idx(&dims) {
                 let is = join(&idx);
@@ -1071,7 +1666,7 @@ fn gen(args: &Args, emit: &mut dyn FnMut(String), st: &mut Stats) {
         }
     }
     // random histories: four variables, every op kind, clone_from chains between variables of different shapes
-    let n_rand = if thorough { 60000 } else { 2500 };
+    let n_rand = if thorough { 60000 } else { 2500 } / if debug { 2 } else { 1 };
     for _ in 0..n_rand {
         let rank = 1 + rng.below(3) as usize;
         let hi = if rank == 1 { 6 } else if rank == 2 { 4 } else { 3 };
@@ -1154,6 +1749,311 @@ fn gen(args: &Args, emit: &mut dyn FnMut(String), st: &mut Stats) {
         emit(format!("h {} ; {}", rank, ops.join(" ; ")));
         st.bump("hist_random");
         st.add("hist_random_clone_from_ops", n_cf);
+    }
+
+    // (6) element-generic histories `g <D> <ty>`: every element type through every operation
+    const TYPES: [&str; 7] = ["i64", "str", "f64", "unit", "zst", "nz", "rec"];
+    fn has_io(ty: &str) -> bool {
+        ty != "f64" && ty != "unit" && ty != "nz"
+    }
+    fn rand_elem(ty: &str, rng: &mut SplitMix64) -> String {
+        match ty {
+            "i64" => match rng.below(10) {
+                0 => i64::MIN.to_string(),
+                1 => i64::MAX.to_string(),
+                _ => rng.range_i64(-2, 3).to_string(),
+            },
+            "str" => rng.pick(&["a", "b", "ab", "A.b", "x-1", "+", "0"]).to_string(),
+            "f64" => match rng.below(8) {
+                0 | 1 => "nan".to_string(),
+                2 => "0.0".to_string(),
+                3 => "-0.0".to_string(),
+                _ => rng.pick(&["1.0", "-1.0", "1.5", "-2.25", "0.1", "inf", "-inf", "1e300", "0.0", "-0.0"]).to_string(),
+            },
+            "unit" => "u".to_string(),
+            "zst" => "z".to_string(),
+            "nz" => "n".to_string(),
+            _ => format!("{}:{}", rng.range_i64(0, 3), rng.range_i64(0, 9)),
+        }
+    }
+    fn rand_data(ty: &str, n: usize, rng: &mut SplitMix64) -> Vec<String> {
+        // mostly few distinct values, so equal tensors and ties are frequent
+        if rng.chance(1, 3) {
+            let v = rand_elem(ty, rng);
+            (0..n).map(|_| v.clone()).collect()
+        } else {
+            (0..n).map(|_| rand_elem(ty, rng)).collect()
+        }
+    }
+    // a constructor op for slot `s`: from_vec / from_slice / read (types with IO), `new` when all elements are the same
+    fn ctor_op(ty: &str, s: usize, dims: &[usize], data: &[String], rng: &mut SplitMix64) -> String {
+        let uniform = data.windows(2).all(|w| w[0] == w[1]) && !data.is_empty();
+        let k = rng.below(4);
+        if uniform && k == 0 {
+            return format!("new {} {} {}", s, join(dims), data[0]);
+        }
+        let kind = match k {
+            1 => "sl",
+            2 if has_io(ty) => "rdv",
+            _ => "vec",
+        };
+        format!("{} {} {} {}", kind, s, join(dims), join_s(data))
+    }
+    fn itx_op(s: usize, n: usize, rng: &mut SplitMix64) -> String {
+        // k + j below, at and beyond the length
+        let k = rng.below(n as u64 + 2) as usize;
+        let j = if rng.chance(1, 2) { 0 } else { rng.below(n as u64 + 2) as usize };
+        let left = n.saturating_sub(k).saturating_sub(j);
+        match rng.below(8) {
+            0 => format!("itx {} {} {} count", s, k, j),
+            1 => format!("itx {} {} {} len", s, k, j),
+            2 => format!("itx {} {} {} last", s, k, j),
+            3 => format!("itx {} {} {} nth {}", s, k, j, rng.below(left as u64 + 2)),
+            4 => format!("itx {} {} {} nthb {}", s, k, j, rng.below(left as u64 + 2)),
+            5 => format!("itx {} {} {} rev", s, k, j),
+            _ => format!("itx {} {} {} rest", s, k, j),
+        }
+    }
+    fn rand_idx(shape: &[usize], oob: bool, rng: &mut SplitMix64) -> Vec<usize> {
+        let mut j: Vec<usize> = shape.iter().map(|&d| rng.below(d as u64) as usize).collect();
+        if oob && !shape.is_empty() {
+            let k = rng.below(shape.len() as u64) as usize;
+            j[k] = shape[k] + rng.below(2) as usize;
+        }
+        j
+    }
+    // (6a) per type and pair of shapes: ==, != (both orders, the same object on both sides, a clone, a rebuilt copy), iterators,
+    //      clone_from into the other shape, indexing afterwards
+    for ty in TYPES {
+        for rank in 0..=4usize {
+            let all = hist_shapes(rank, thorough);
+            for a in &all {
+                let na: usize = a.iter().product();
+                let mut partners: Vec<&Vec<usize>> = all.iter().filter(|b| b.iter().product::<usize>() == na).collect();
+                if let Some(b) = all.iter().find(|b| b.iter().product::<usize>() != na) {
+                    partners.push(b);
+                }
+                for b in partners {
+                    let nb: usize = b.iter().product();
+                    if debug && !rng.chance(1, 2) {
+                        continue;
+                    }
+                    let da = rand_data(ty, na, &mut rng);
+                    let db = if na == nb && rng.chance(2, 3) { da.clone() } else { rand_data(ty, nb, &mut rng) };
+                    let mut ops: Vec<String> = vec![ctor_op(ty, 0, a, &da, &mut rng), ctor_op(ty, 1, b, &db, &mut rng)];
+                    for o in ["eq 0 1", "ne 0 1", "eq 1 0", "eq 0 0", "ne 0 0", "ne 1 1", "cl 2 0", "eq 0 2", "ne 2 0", "dims 2", "it 2", "dbg 2"] {
+                        ops.push(o.to_string());
+                    }
+                    ops.push(itx_op(2, na, &mut rng));
+                    ops.push(itx_op(0, na, &mut rng));
+                    ops.push("coll 3 1".into());
+                    ops.push("eq 3 1".into());
+                    ops.push("ne 1 3".into());
+                    ops.push(format!("like 3 0 {}", rand_elem(ty, &mut rng)));
+                    ops.push("eq 3 0".into());
+                    ops.push("dims 3".into());
+                    ops.push("cf 2 1".into());
+                    ops.push("eq 2 1".into());
+                    ops.push("ne 2 0".into());
+                    ops.push("dims 2".into());
+                    ops.push(format!("get 2 {}", join(&b.iter().map(|d| d - 1).collect::<Vec<_>>())));
+                    ops.push(format!("rd 2 {}", join(&rand_idx(b, false, &mut rng))));
+                    if rank > 0 {
+                        ops.push(format!("get 2 {}", join(&rand_idx(b, true, &mut rng))));
+                        ops.push(format!("rd 2 {}", join(&rand_idx(a, rng.chance(1, 2), &mut rng))));
+                        ops.push(format!("wr 2 {} {}", join(&rand_idx(b, true, &mut rng)), rand_elem(ty, &mut rng)));
+                    }
+                    ops.push(format!("wr 2 {} {}", join(&rand_idx(b, false, &mut rng)), rand_elem(ty, &mut rng)));
+                    ops.push("eq 2 1".into());
+                    ops.push("ne 2 1".into());
+                    ops.push("eq 2 2".into());
+                    ops.push("it 1".into());
+                    ops.push(itx_op(2, nb, &mut rng));
+                    if has_io(ty) {
+                        ops.push("w 2".into());
+                    }
+                    ops.push(format!("dim 2 {}", rng.below(rank as u64 + 2)));
+                    emit(format!("g {} {} ; {}", rank, ty, ops.join(" ; ")));
+                    st.bump(&format!("ghist_pair_{}", ty));
+                    st.bump(if a == b { "ghist_pair_same_shape" } else if na == nb { "ghist_pair_same_count_other_shape" } else { "ghist_pair_other_count" });
+                }
+            }
+        }
+    }
+    // (6b) random histories per element type: four live variables, every op kind
+    let n_grand = if thorough { 8000 } else { 450 } / if debug { 2 } else { 1 };
+    for ty in TYPES {
+        for _ in 0..n_grand {
+            let rank = rng.below(4) as usize;
+            let hi = if rank <= 1 { 6 } else if rank == 2 { 4 } else { 3 };
+            let base: Vec<usize> = (0..rank).map(|_| 1 + rng.below(hi) as usize).collect();
+            let mut pool: Vec<Vec<usize>> = vec![base.clone()];
+            let mut perm = base.clone();
+            if rank > 0 {
+                perm.rotate_left(1);
+            }
+            pool.push(perm);
+            let mut rev = base.clone();
+            rev.reverse();
+            pool.push(rev);
+            pool.push((0..rank).map(|_| 1 + rng.below(hi) as usize).collect());
+            let mut cur: [Option<Vec<usize>>; 4] = [None, None, None, None];
+            let mut ops: Vec<String> = Vec::new();
+            let len = 6 + rng.below(16) as usize;
+            for step in 0..len {
+                let live: Vec<usize> = (0..4).filter(|&k| cur[k].is_some()).collect();
+                let kind = if live.is_empty() || (step < 2 && live.len() < 2) { 0 } else { rng.below(20) };
+                match kind {
+                    0 | 1 => {
+                        let s = rng.below(4) as usize;
+                        let d = rng.pick(&pool).clone();
+                        let n: usize = d.iter().product();
+                        let data = rand_data(ty, n, &mut rng);
+                        ops.push(ctor_op(ty, s, &d, &data, &mut rng));
+                        cur[s] = Some(d);
+                        st.bump("ghist_op_ctor");
+                    }
+                    2 | 3 if live.len() >= 2 => {
+                        let s = *rng.pick(&live);
+                        let r = loop {
+                            let r = *rng.pick(&live);
+                            if r != s {
+                                break r;
+                            }
+                        };
+                        ops.push(format!("cf {} {}", s, r));
+                        cur[s] = cur[r].clone();
+                        st.bump("ghist_op_clone_from");
+                    }
+                    2 | 3 | 4 => {
+                        let r = *rng.pick(&live);
+                        let s = rng.below(4) as usize;
+                        ops.push(format!("cl {} {}", s, r));
+                        cur[s] = cur[r].clone();
+                        st.bump("ghist_op_clone");
+                    }
+                    5 => {
+                        let r = *rng.pick(&live);
+                        let s = rng.below(4) as usize;
+                        if rng.chance(1, 2) {
+                            ops.push(format!("coll {} {}", s, r));
+                        } else {
+                            ops.push(format!("like {} {} {}", s, r, rand_elem(ty, &mut rng)));
+                        }
+                        cur[s] = cur[r].clone();
+                        st.bump("ghist_op_rebuild");
+                    }
+                    6 | 7 | 8 => {
+                        let s = *rng.pick(&live);
+                        // the same object on both sides one time in three
+                        let r = if rng.chance(1, 3) { s } else { *rng.pick(&live) };
+                        ops.push(format!("{} {} {}", if rng.chance(1, 2) { "eq" } else { "ne" }, s, r));
+                        st.bump(if s == r { "ghist_op_eq_same_object" } else { "ghist_op_eq" });
+                    }
+                    9 => {
+                        let s = *rng.pick(&live);
+                        ops.push(if rng.chance(1, 2) { format!("dims {}", s) } else { format!("dim {} {}", s, rng.below(rank as u64 + 1)) });
+                    }
+                    10 | 11 | 12 | 13 => {
+                        let s = *rng.pick(&live);
+                        let shape = if rng.chance(2, 3) { cur[s].clone().unwrap() } else { rng.pick(&pool).clone() };
+                        let j = rand_idx(&shape, rng.chance(1, 3), &mut rng);
+                        match kind {
+                            10 => ops.push(format!("get {} {}", s, join(&j))),
+                            11 => ops.push(format!("rd {} {}", s, join(&j))),
+                            _ => ops.push(format!("wr {} {} {}", s, join(&j), rand_elem(ty, &mut rng))),
+                        }
+                        st.bump("ghist_op_index");
+                    }
+                    14 | 15 | 16 => {
+                        let s = *rng.pick(&live);
+                        let n: usize = cur[s].as_ref().unwrap().iter().product();
+                        ops.push(itx_op(s, n, &mut rng));
+                        st.bump("ghist_op_iter_partial");
+                    }
+                    17 => ops.push(format!("it {}", *rng.pick(&live))),
+                    18 => ops.push(format!("dbg {}", *rng.pick(&live))),
+                    _ => {
+                        if has_io(ty) {
+                            ops.push(format!("w {}", *rng.pick(&live)));
+                        } else {
+                            ops.push(format!("dbg {}", *rng.pick(&live)));
+                        }
+                    }
+                }
+            }
+            for k in 0..4 {
+                if cur[k].is_some() {
+                    ops.push(format!("dims {}", k));
+                    ops.push(format!("it {}", k));
+                    ops.push(format!("eq {} {}", k, k));
+                }
+            }
+            emit(format!("g {} {} ; {}", rank, ty, ops.join(" ; ")));
+            st.bump(&format!("ghist_random_{}", ty));
+        }
+    }
+    // (6c) shapes beyond the small scope (extents that are powers of two, unit extents, long vectors): offsets, == / != between
+    //      shapes with the same count, iterators consumed deep from both ends
+    let big: Vec<Vec<usize>> = vec![
+        vec![4096],
+        vec![99991],
+        vec![64, 64],
+        vec![300, 7],
+        vec![7, 300],
+        vec![1, 4096, 1],
+        vec![16, 16, 16],
+        vec![2, 3, 4, 5],
+        vec![5, 4, 3, 2],
+        vec![17, 1, 19, 3],
+        vec![32, 8, 4, 4],
+    ];
+    for ty in TYPES {
+        for a in &big {
+            if !thorough && !debug && ty != "i64" && ty != "unit" && !rng.chance(1, 2) {
+                continue;
+            }
+            if debug && !rng.chance(1, 3) {
+                continue;
+            }
+            if a[0] > 50000 && !thorough && ty != "i64" {
+                continue;
+            }
+            let rank = a.len();
+            let n: usize = a.iter().product();
+            let mut b = a.clone();
+            b.rotate_left(1);
+            let v = rand_elem(ty, &mut rng);
+            let mut ops: Vec<String> = vec![format!("new 0 {} {}", join(a), v), format!("new 1 {} {}", join(&b), v), "eq 0 1".into(), "ne 0 1".into(), "eq 0 0".into()];
+            ops.push("cl 2 0".into());
+            ops.push("eq 2 0".into());
+            for _ in 0..6 {
+                ops.push(format!("get 0 {}", join(&rand_idx(a, false, &mut rng))));
+                ops.push(format!("get 1 {}", join(&rand_idx(&b, false, &mut rng))));
+            }
+            ops.push(format!("get 0 {}", join(&a.iter().map(|d| d - 1).collect::<Vec<_>>())));
+            ops.push(format!("rd 0 {}", join(&a.iter().map(|d| d - 1).collect::<Vec<_>>())));
+            for _ in 0..3 {
+                ops.push(format!("get 0 {}", join(&rand_idx(a, true, &mut rng))));
+                ops.push(format!("rd 1 {}", join(&rand_idx(a, false, &mut rng))));
+            }
+            for (k, j) in [(n - 3, 1usize), (n / 2, 13), (n - 30, 20), (n, 0), (n - 20, 21), (0, 0), (5, 7)] {
+                ops.push(format!("itx 0 {} {} count", k, j));
+                ops.push(format!("itx 0 {} {} len", k, j));
+                ops.push(format!("itx 2 {} {} last", k, j));
+                ops.push(format!("itx 1 {} {} rev", k.max(n - 5), j.min(2)));
+                ops.push(format!("itx 0 {} {} nth {}", k.min(n / 2), j.min(30), rng.below(n as u64 / 4)));
+                ops.push(format!("itx 0 {} {} nthb {}", k.min(n / 2), j.min(30), rng.below(50)));
+            }
+            ops.push("cf 1 0".into());
+            ops.push("eq 1 0".into());
+            ops.push("dims 1".into());
+            for k in 0..rank {
+                ops.push(format!("dim 1 {}", k));
+            }
+            emit(format!("g {} {} ; {}", rank, ty, ops.join(" ; ")));
+            st.bump("ghist_big_shape");
+        }
     }
 }
 
